@@ -475,7 +475,10 @@ impl<'a, T: std::fmt::Debug> WaitingState<'a, T> {
                 // logic.
                 if ret.is_some() {
                     let idx = core::cmp::min(num_taps.into(), tds.actions.len()).saturating_sub(1);
-                    self.tap = tds.actions[idx];
+                    // An empty action list is accepted by the parser; it behaves as a no-op key.
+                    if let Some(ac) = tds.actions.get(idx) {
+                        self.tap = ac;
+                    }
                 }
                 if num_taps > tds.num_taps {
                     self.timeout = tds.timeout;
@@ -1759,7 +1762,10 @@ impl<'a, const C: usize, const R: usize, T: 'a + Copy + std::fmt::Debug> Layout<
                                 }
                             }
                         };
-                        self.do_action(td.actions[0], coord, delay, false, layer_stack);
+                        // An empty action list is accepted by the parser; it behaves as a no-op key.
+                        if let Some(ac) = td.actions.first() {
+                            self.do_action(ac, coord, delay, false, layer_stack);
+                        }
                     }
                 }
             }
